@@ -1,2 +1,62 @@
+(* C01 — specification, written from the property text (not from Universe.cpp).
+   Vocabulary shared with the model: a source's last frame {s_data; s_ts; s_prio}, source ids,
+   the fan-out calls WriteDMX/SendDMX, and the list of candidate sources of a universe.
+   Literal numbers of the property (2.5 s = 2 500 000 us) are used here; Properties.c01_consts ties the
+   regenerated constants to them. *)
 From OlaBase Require Import Bytes.
-From C01 Require Import Gen Model.
+From C01 Require Import Model.
+Local Open Scope N_scope.
+
+Definition srcs := list (sid * source).
+
+(* "live meaning non-empty data received within the last 2.5 s"; a never-set source has no
+   reception time (the unset time stamp 0) *)
+Definition is_live (now : N) (s : source) : Prop :=
+  s_ts s <> 0 /\ now < s_ts s + 2500000 /\ s_data s <> [].
+Definition liveb (now : N) (s : source) : bool :=
+  negb (s_ts s =? 0) && (now <? s_ts s + 2500000) && match s_data s with [] => false | _ => true end.
+
+(* the highest priority among the live sources (0 when there is none) *)
+Fixpoint top (now : N) (l : srcs) : N :=
+  match l with
+  | [] => 0
+  | e :: r => if liveb now (snd e) then N.max (s_prio (snd e)) (top now r) else top now r
+  end.
+(* the live highest-priority group *)
+Definition in_group (now : N) (l : srcs) (e : sid * source) : bool :=
+  liveb now (snd e) && (s_prio (snd e) =? top now l).
+Definition group (now : N) (l : srcs) : srcs := filter (in_group now l) l.
+Definition member (i : sid) (g : srcs) : bool := existsb (fun e => sid_eqb (fst e) i) g.
+(* the group's (common) priority *)
+Definition gprio (g : srcs) : N := match g with [] => 0 | e :: _ => s_prio (snd e) end.
+
+(* slot-wise maximum of a set of frames: as long as the longest, slot i = max over the frames that
+   have a slot i *)
+Definition maxl (l : list N) : N := fold_right N.max 0 l.
+Definition maxlen (fs : list (list N)) : nat := fold_right Nat.max 0%nat (map (@length N) fs).
+Definition slotwise_max (fs : list (list N)) : list N :=
+  map (fun i => maxl (map (fun f => nth i f 0) fs)) (seq 0 (maxlen fs)).
+
+(* "another member is newer" than the updating source *)
+Definition newer_exists (ts : N) (g : srcs) : bool := existsb (fun e => ts <? s_ts (snd e)) g.
+
+(* What the universe must hold after source [chg] updated, given the live highest-priority group [g]
+   of the moment; None = nothing changes. *)
+Definition expected (ltp : bool) (chg : sid) (g : srcs) : option (list N) :=
+  match find (fun e => sid_eqb (fst e) chg) g with
+  | None => None                                   (* update from outside the group *)
+  | Some e =>
+    match g with
+    | [_] => Some (s_data (snd e))                 (* sole member: verbatim *)
+    | _ => if ltp
+           then (if newer_exists (s_ts (snd e)) g then None else Some (s_data (snd e)))
+           else Some (slotwise_max (map (fun x => s_data (snd x)) g))
+    end
+  end.
+
+(* every patched output port, then every registered sink client, gets frame and winning priority *)
+Definition hand_out (outs sinks : list N) (frame : list N) (prio : N) : list event :=
+  map (fun p => WriteDMX p frame prio) outs ++ map (fun c => SendDMX c frame prio) sinks.
+
+(* the candidate sources of the universe in a world: its input ports, then its source clients *)
+Definition sources (w : world) : srcs := port_sources w ++ client_sources w.
